@@ -809,7 +809,11 @@ pub fn run_scenario(scn: &Scenario, hook: Option<fn(&mut Exec, usize, &Ev)>) -> 
     let r = crate::hashseed::on_fresh_thread(scn.hash_seed, 256, move || {
         let world = World::new();
         let mut ex = Exec::new(&world, &scn2);
+        let ev_hb = std::env::var("OALSIM_HEARTBEAT").ok().map(|p| format!("{p}.ev"));
         for (i, ev) in scn2.events.iter().enumerate() {
+            if let Some(p) = &ev_hb {
+                let _ = std::fs::write(p, format!("{i}"));
+            }
             if let Some(h) = hook {
                 h(&mut ex, i, ev);
             }
@@ -845,6 +849,56 @@ pub fn run_scenario(scn: &Scenario, hook: Option<fn(&mut Exec, usize, &Ev)>) -> 
             final_client: ClientModel::default(),
         },
     }
+}
+
+/// Attribution probe (run in its own process by the driver after a worker died during
+/// event `k` of `scn`): replays the client model only, then hands the texts reached
+/// *after* event k to a fresh server and lets it refresh. Returns the fresh server's
+/// cause of death, if it died in a catchable way; a stack overflow kills the process.
+pub fn probe(scn: &Scenario, k: usize) -> Option<String> {
+    let scn2 = scn.clone();
+    crate::hashseed::on_fresh_thread(scn.hash_seed, 256, move || {
+        let world = World::new();
+        world.reset(&scn2.config, &scn2.disk);
+        let mut client = ClientModel {
+            disk: scn2.disk.clone(),
+            open: BTreeMap::new(),
+            folder_present: true,
+        };
+        for ev in scn2.events.iter().take(k + 1) {
+            match ev {
+                Ev::Open { path, text } => {
+                    client.open.entry(path.clone()).or_insert((text.clone(), 1));
+                }
+                Ev::Change { path, changes } => {
+                    if let Some((t, _)) = client.open.get_mut(path) {
+                        for c in changes {
+                            position::apply_change(t, c.range, &c.text);
+                        }
+                    }
+                }
+                Ev::Close { path } => {
+                    client.open.remove(path);
+                }
+                Ev::Save { path } => {
+                    if client.disk.contains_key(path) {
+                        if let Some((t, _)) = client.open.get(path) {
+                            client.disk.insert(path.clone(), t.clone());
+                            world.write(path, t);
+                        }
+                    }
+                }
+                Ev::Folder { add } => client.folder_present = *add,
+                _ => {}
+            }
+        }
+        if let Ok(p) = std::env::var("OALSIM_PROBE_DUMP") {
+            let _ = std::fs::write(p, serde_json::to_string_pretty(&client.effective_all()).unwrap_or_default());
+        }
+        let fresh = fresh_peer(&world, &client);
+        fresh.server.death.clone()
+    })
+    .unwrap_or_else(|p| Some(format!("panic: {p}")))
 }
 
 pub const CONFIG: &str = "[api]\nmain = \"main.oal\"\ntarget = \"out.yaml\"\n";
